@@ -269,7 +269,7 @@ macro_rules! engine_spec {
 }
 
 pub fn all_ids() -> Vec<&'static str> {
-    vec!["C01", "C02", "C03", "C04", "C05", "C06", "C07", "C08", "C09", "C10", "C11", "C13"]
+    vec!["C01", "C02", "C03", "C04", "C05", "C06", "C07", "C08", "C09", "C10", "C11", "C13", "C15", "C16", "C17", "C18"]
 }
 
 pub fn spec(id: &str) -> Option<PropSpec> {
@@ -371,6 +371,54 @@ pub fn spec(id: &str) -> Option<PropSpec> {
             assumptions: ENGINE_ASSUMPTIONS,
             both_builds_quick: true,
             abort_is_violation: true,
+        },
+        "C15" => PropSpec {
+            id: "C15",
+            level: "exploration",
+            rule: "cases = operator (incr_map, incr_filter_map, incr_mapi, incr_filter_mapi, incr_unordered_fold with/without update and revert-to-init, incr_merge, incr_partition(_mapi)) x map type (BTreeMap, Rc<BTreeMap>, OrdMap; each operator on every type it exists for) x a history of edits (insert, remove, change, clear, refill, equal write) and observe/unobserve toggles over keys 0..8, values 0..4; oracle = plain function of the current input(s) with std collections after every observed stabilise; non-trivial = the history empties the map, refills it, and edits it while the operator is unobserved; distinct = distinct decoded history",
+            cases: [400_000, 10_000_000],
+            len: [160, 400],
+            run: crate::maps::run_c15,
+            exhaustive: None,
+            assumptions: &["i32 keys 0..8 and values 0..4; user functions are pure and, for folds, invertible", "panics inside the operator count as a violation (no output was produced)"],
+            both_builds_quick: false,
+            abort_is_violation: false,
+        },
+        "C16" => PropSpec {
+            id: "C16",
+            level: "exploration",
+            rule: "cases = {incr_mapi_, incr_filter_mapi_} x {no cutoff, PartialEq cutoff, fn cutoff} x {BTreeMap, OrdMap} x per-key function family (pure map, map2 with an outer var, bind on the value choosing between outer nodes, function ignoring its input, one shared pre-existing node for all keys) x history of map edits, outer var writes and observe/unobserve; oracle = per-key computation applied to the current entries after every observed stabilise, no panic; non-trivial = a key was removed and re-added, an outer var was written and the output was re-observed; distinct = distinct decoded history",
+            cases: [300_000, 8_000_000],
+            len: [160, 400],
+            run: crate::maps::run_c16_case,
+            exhaustive: None,
+            assumptions: &["i32 keys 0..8 and values 0..4; cutoffs only suppress equal values"],
+            both_builds_quick: true,
+            abort_is_violation: false,
+        },
+        "C17" => PropSpec {
+            id: "C17",
+            level: "exploration",
+            rule: "cases = the C15 and C16 generators with every user function logging (role, key); oracle = logged keys per role are a subset of the keys that differ between the input the operator last processed and the current input (either input for merge), at most once per key and role, every key allowed once on initialisation, nothing while unobserved; builders only for added keys, per-key closures only for changed keys or after an outer var write; non-trivial = an edit touching fewer than half of a map of >= 4 keys; distinct = distinct decoded history",
+            cases: [500_000, 12_000_000],
+            len: [160, 400],
+            run: crate::maps::run_c17,
+            exhaustive: None,
+            assumptions: &["incr_map / incr_filter_map hand only the value to the user function: for them the number of calls is bounded by the number of changed keys instead of the key set"],
+            both_builds_quick: false,
+            abort_is_violation: false,
+        },
+        "C18" => PropSpec {
+            id: "C18",
+            level: "exploration",
+            rule: "cases = pairs of maps: ALL pairs over keys 0..5 x {absent,0,1} (quick) / keys 0..6 x {absent,0,1,2} (thorough) on BTreeMap, Rc<BTreeMap> and OrdMap, plus random pairs over 40 keys (second map an edit of the first), plus incr_merge histories with an instrumented merge function (strictly ascending keys, exactly the keys differing in either input); non-trivial = the pair has a Left, a Right, an Unequal and an equal key (merge: edits in both inputs); distinct = distinct pair / history",
+            cases: [300_000, 6_000_000],
+            len: [120, 300],
+            run: crate::c18::run_c18,
+            exhaustive: Some(crate::c18::exhaustive_c18),
+            assumptions: &["symmetric_fold is the public entry point; the crate-private MergeOnceWith is reached only through incr_merge"],
+            both_builds_quick: false,
+            abort_is_violation: false,
         },
         _ => return None,
     })
